@@ -732,7 +732,17 @@ func (ar *asyncRunner) step(res Value, done bool, ex *Exception) {
 	}); ex != nil {
 		// Await: "Let promise be ? PromiseResolve(%Promise%, value)" - an abrupt completion (a throwing
 		// 'constructor' getter of the awaited promise) is thrown at the await expression
-		res, resType, ex1 := ar.gen.nextThrow(ex.val)
+		// When called from start() the generator is still entered: nextThrow() re-enters it and overwrites the stack
+		// lengths stored by enter(), which start()'s unwindOnPanic() needs if an uncatchable exception (interrupt)
+		// propagates from the resumed body.
+		g := &ar.gen
+		tl, il, rl := g.tryStackLen, g.iterStackLen, g.refStackLen
+		res, resType, ex1 := func() (Value, resultType, *Exception) {
+			defer func() {
+				g.tryStackLen, g.iterStackLen, g.refStackLen = tl, il, rl
+			}()
+			return g.nextThrow(ex.val)
+		}()
 		ar.step(res, resType == resultNormal, ex1)
 		return
 	}
